@@ -117,7 +117,7 @@ def unquote(string, only_printable=False, unsafe=None, normalize_space=False):
 
 UNSAFE_FOR_AUTH_ITEM = b" @:/?#%"
 UNSAFE_FOR_PATH = b" /?#%"
-UNSAFE_FOR_QUERY_ITEM = b" &=#+%"
+UNSAFE_FOR_QUERY_ITEM = b" &=#%"
 UNSAFE_FOR_FRAGMENT = b" %"
 
 # NOTE: those method should only be used on parsed urls to canonicalize/normalize.
